@@ -470,7 +470,7 @@ Section Case.
     let var_default := existsb (fun d => match vd_default d with Some _ => true | None => false end) defs in
     (if site_field then ["site-field"] else ["site-directive"]) ++
     (if builtin then ["site-skip-include"] else []) ++
-    (if bridgeable E then ["c04-bridge-evaluated"] else ["c04-bridge-skipped-datetime-longint"]) ++
+    (if bridgeable E then ["c04-bridge-evaluated"] else ["c04-bridge-evaluated-through-srefined"]) ++
     (if st then [] else ["static-reject"]) ++
     (if st then match vv with
                 | Ok v => match am with
@@ -559,13 +559,13 @@ Definition check (c : sexp) : sexp :=
                               end in
                 (* C05 x C04: the two transcriptions of validateCoercion agree on every literal *)
                 let bridge_ok :=
-                  negb (bridgeable E)
-                  || (forallb (fun a : name * lit => match aget (fst a) argdefs with
-                                                     | Some d => bridge_agrees E dt (snd a) (in_type d)
+                  (* through C04's SRefined scalars DateTime and LongInt cross too: every case *)
+                     (forallb (fun a : name * lit => match aget (fst a) argdefs with
+                                                     | Some d => bridge_agrees_r E dt (snd a) (in_type d)
                                                      | None => true
                                                      end) args
                       && forallb (fun d => match vd_default d with
-                                           | Some l => negb (type_known E (vd_type d)) || bridge_agrees E dt l (vd_type d)
+                                           | Some l => negb (type_known E (vd_type d)) || bridge_agrees_r E dt l (vd_type d)
                                            | None => true
                                            end) defs) in
                 if negb bridge_ok then v_mismatch "c04-validator-model-disagrees" [] else
@@ -575,7 +575,7 @@ Definition check (c : sexp) : sexp :=
                              else Some (if String.eqb site "skip" then [115; 107; 105; 112]%N
                                         else if String.eqb site "include" then [105; 110; 99; 108; 117; 100; 101]%N
                                         else [102; 108; 116]%N) in
-                if bridgeable E && negb (Bool.eqb (c04_document_accepts E site_field dname argdefs defs args) st)
+                if negb (Bool.eqb (c04_document_accepts_r dt E site_field dname argdefs defs args) st)
                 then v_mismatch "c04-document-verdict-disagrees" [of_bool st] else
                 match oracle E site_field argdefs args raw o ref_vv ref_am with
                 | Some v => v
